@@ -85,12 +85,13 @@ CHECKS = {
              "is proved for the abstract waveform and relies on the store correspondence (C04) for the stored bytes; when the cut token is itself a new-maximum timestamp the changes AT the last common step are covered by the differential run only. Hangs cannot occur in the model (structural recursion); a hang of the real loader would stall the harness and be reported as reply-count mismatch.",
     ),
     "C03": dict(
-        technique="Lean 4 proof (chunk arithmetic, hand-over exit only truncates, append concatenates tables) + differential run over every boundary alignment against the Lean model of the chunked parser",
-        text="The schedule quantifier collapses in the model (pure per-chunk parsers, ordered collect, sequential append). Lean theorems C03_chunks, C03_chunk_events_prefix, C03_append_table, C03_mt_load_is_store_run (a multi-threaded load that succeeds is Spec.runSegs — one encoder per chunk, appended in order — on the per-chunk operations) and C03_mt_loaded_signal (with the store refinement C04_store_refines_spec_all: each loaded signal is what the abstract specification denotes for those operations). "
+        technique="Lean 4 proof (chunk arithmetic, hand-over exit only truncates, append concatenates tables, split marks are transparent for the specification, composition mt = st under one lexical assumption) + differential run over every boundary alignment against the Lean model of the chunked parser",
+        text="The schedule quantifier collapses in the model (pure per-chunk parsers, ordered collect, sequential append). Lean theorems C03_chunks, C03_chunk_events_prefix, C03_append_table, C03_mt_load_is_store_run (a multi-threaded load that succeeds is Spec.runSegs — one encoder per chunk, appended in order — on the per-chunk operations) and C03_mt_loaded_signal (with the store refinement C04_store_refines_spec_all: each loaded signal is what the abstract specification denotes for those operations); C03_split_transparent (a history with split marks denotes what the same operations recorded by ONE thread denote) and "
+             "C03_mt_eq_st_given_handover (if both loads succeed and the per-chunk operations, one after the other, are the whole body's operations — HandoverLexical, the one assumption — both loads report the same change list for every signal). "
              "The multi-threaded loader runs in scoped rayon pools of 2..16 threads with a hook overriding MIN_CHUNK_SIZE so that boundaries land on every byte alignment of small bodies "
              "(plus production chunking on larger ones); results are compared with the executable Lean model of the chunked parser and with the single-threaded load.",
         design_ref="DESIGN.md section 5 / C03",
-        note="Proved: everything between the per-chunk events and the loaded signals (VcdEncoder, Encoder incl. append, finish, loader). Not proved: the lexical last step of mt = st, that the per-chunk operations are the operations of the whole body; for hand-over-safe bodies it is checked differentially, for unsafe bodies the property is false in the current code "
+        note="Proved: everything between the per-chunk events and the loaded signals (VcdEncoder, Encoder incl. append, finish, loader). Not proved: the lexical last step of mt = st, that the per-chunk operations are the operations of the whole body (HandoverLexical); it is DECIDED for every generated body by the driver (evidence counters handover_lexical_holds_on_safe_bodies / _fails_on_safe_bodies) and for hand-over-safe bodies checked differentially against the real loader, for unsafe bodies the property is false in the current code "
              "(known finding FMT = F2/F3/F4/F5b) and the check verifies the implementation does exactly what the model predicts. Trusted: rayon's ordered exactly-once map; real thread "
              "interleavings are varied only through pool sizes.",
     ),
